@@ -238,13 +238,15 @@ def skolemize_goal(goal):
     if z3.is_implies(goal) and z3.is_quantifier(goal.arg(1)) and goal.arg(1).is_forall():
         g2, c2 = skolemize_goal(goal.arg(1))
         return z3.Implies(goal.arg(0), g2), consts + c2
-    if z3.is_and(goal):
+    if z3.is_and(goal) or z3.is_or(goal):
         parts = []
         for ch in goal.children():
             g2, c2 = skolemize_goal(ch)
             parts.append(g2)
             consts.extend(c2)
-        return z3.And(*parts), consts
+        return (z3.And(*parts) if z3.is_and(goal) else z3.Or(*parts)), consts
+    if z3.is_app(goal) and goal.decl().kind() == z3.Z3_OP_ITE and goal.sort() == z3.BoolSort():
+        return goal, consts
     return goal, consts
 
 
@@ -368,6 +370,8 @@ def prepare_staged(hyps, opt, goal, cands=()):
         try:
             ih, ig = instantiate(list(hyps) + list(opt or []), goal)
             texts["inst"] = to_smt2(ih, ig)
+            c2 = {}
+            texts["inst+ufabs"] = to_smt2([uf_abstract(h, c2) for h in ih], uf_abstract(ig, c2))
         except z3.Z3Exception:
             pass
     try:
@@ -405,60 +409,47 @@ def discharge_staged(texts, timeout_s, hint=None):
 
 
 def _discharge_staged(texts, timeout_s):
-    """Dropping hypotheses is sound for proving, so: all hyps (without, then with the optional groups); if that
-    is undecided, relevance-filtered subsets.  Only a model of *all* hypotheses counts as a refutation."""
+    """Dropping or instantiating hypotheses is sound for proving.  Two passes over the stages: a short budget first
+    (most obligations are decided in well under a second by one of the stages), then the full budget.
+    Only a model of *all* hypotheses counts as a refutation; a model of the instantiated query is a candidate."""
     total = 0.0
-    r = run_one(texts["all"], timeout_s)
-    total += r["time"]
-    stage = "all"
-    if r["verdict"] != "unsat" and "all+opt" in texts:
-        r = run_one(texts["all+opt"], timeout_s)
-        total += r["time"]
-        stage = "all+opt"
-    if r["verdict"] == "unknown":
-        full = r
-        for k in ("cone0", "cone0+opt", "cone1", "cone1+opt"):
+    full_key = "all+opt" if "all+opt" in texts else "all"
+    prove_order = ["all", "all+opt", "inst", "inst+ufabs", "ufabs", "cone0", "cone0+opt", "cone1", "cone1+opt"]
+    last_full = None
+    candidate = None
+    for budget, use_cvc5 in ((min(2, timeout_s), False), (timeout_s, True)):
+        for k in prove_order:
             if k not in texts:
                 continue
-            r2 = run_one(texts[k], max(3, timeout_s // 2), use_cvc5=False)
-            total += r2["time"]
-            if r2["verdict"] == "unsat":
-                r2["time"] = total
-                r2["stage"] = k
-                return r2
-        if "ufabs" in texts:
-            r5 = run_one(texts["ufabs"], timeout_s, use_cvc5=False)
-            total += r5["time"]
-            if r5["verdict"] == "unsat":
-                r5["time"] = total
-                r5["stage"] = "ufabs"
-                return r5
-        if "inst" in texts:
-            r4 = run_one(texts["inst"], timeout_s, use_cvc5=False)
-            total += r4["time"]
-            if r4["verdict"] == "unsat":
-                r4["time"] = total
-                r4["stage"] = "inst"
-                return r4
-            if r4["verdict"] == "sat":
-                r4["time"] = total
-                r4["stage"] = "inst"
-                r4["candidate_only"] = True      # model of a weakened query: must be confirmed natively
-                return r4
+            r = run_one(texts[k], budget, use_cvc5=use_cvc5 and k in ("all", "all+opt"))
+            total += r["time"]
+            if r["verdict"] == "unsat":
+                r["time"], r["stage"] = total, k
+                return r
+            if r["verdict"] == "sat":
+                if k == full_key:
+                    r["time"], r["stage"] = total, k
+                    return r                      # genuine counter-model of the full query
+                if k == "inst" and candidate is None:
+                    candidate = r
+            if k == full_key:
+                last_full = r
         # bounded counterexample search: instantiate hard (nonlinear) inputs with concrete candidates; a model of
         # the instantiated query is a model of the original one
         for k in sorted(t for t in texts if t.startswith("cand")):
             txt, cand = texts[k]
-            r3 = run_one(txt, max(3, timeout_s // 2), use_cvc5=False)
+            r3 = run_one(txt, budget, use_cvc5=False)
             total += r3["time"]
             if r3["verdict"] == "sat":
                 r3["model"].update(cand)
-                r3["time"] = total
-                r3["stage"] = k
+                r3["time"], r3["stage"] = total, k
                 return r3
-        r = full
-    r["time"] = total
-    r["stage"] = stage
+        if candidate is not None:
+            candidate["time"], candidate["stage"] = total, "inst"
+            candidate["candidate_only"] = True
+            return candidate
+    r = last_full or {"verdict": "unknown", "backend": "z3", "model": {}, "raw": ""}
+    r["time"], r["stage"] = total, full_key
     return r
 
 
